@@ -53,6 +53,9 @@ def reach_start(prefixes):
 def main():
     prop, descfile, outfile = sys.argv[1:4]
     faulthandler.enable()
+    # periodic stack dumps: when the parent has to kill a stalled shard the log shows
+    # where it was stuck
+    faulthandler.dump_traceback_later(20, repeat=True)
     warnings.simplefilter("ignore")
     logging.disable(logging.CRITICAL)
     with open(descfile) as f:
